@@ -23,7 +23,7 @@ import ast
 
 from ..common import Ctx, src
 from ..model import AnalysisError
-from .homog import ONE, Deg, Evaluator, Other, Top, degree_of, fmt
+from .homog import ONE, Deg, Other, run_units
 
 M = Deg({"M": ONE})
 U = Deg({"U": ONE})
@@ -56,45 +56,10 @@ def run(ctx: Ctx):
 
 
 def unit_consistent(ctx: Ctx):
-    repo, res = ctx.repo, ctx.res
-    for qname, entry, label in SPECS:
-        f = repo.func(qname)
-        missing = [p for p in entry if p not in f.all_params]
-        if missing:
-            raise AnalysisError(f"UNIT-CONSISTENT: {qname} no longer has parameter(s) {missing}")
-        env = {}
-        for p in f.all_params:
-            if p in entry:
-                env[p] = entry[p]
-            elif p in f.defaults and isinstance(f.defaults[p], ast.Constant):
-                env[p] = Other(f.defaults[p].value, f.defaults[p].value is None)
-            else:
-                env[p] = Other()
-        ev = Evaluator(ctx, f, {})
-        ev.run(env)
-        cfg = f"{f.name} [{label}]"
-        rets = []
-        for node, v, _ in ev.returns:
-            parts = [v]
-            if isinstance(v, tuple) and v[0] == "tuple":
-                parts = v[1]
-            for i, pv in enumerate(parts):
-                if isinstance(pv, Deg):
-                    rets.append((node, i, pv.v))
-        if not rets:
-            raise AnalysisError(f"UNIT-CONSISTENT: no return of {qname} could be evaluated ({label})")
-        seen = set()
-        for node, why in ev.problems:
-            if id(node) in seen:
-                continue
-            seen.add(id(node))
-            ctx.finding("UNIT-CONSISTENT", f, node, f"`{cfg}`: `{src(node)[:90]}` combines quantities of different units ({why}; M = unit of UtM, U = unit of UtU, a solution has unit M U^(-1)): the update is not invariant under rescaling the design, so its fixed point is not the least-squares solution for every input", construct=f"{f.name}: {src(node)[:80]} mixes units")
-        for node, i, got in rets:
-            ok = got == SOL
-            res.instance("UNIT-CONSISTENT", f"{cfg}: {src(node)[:50]} #{i}", sample={"configuration": label, "unit": fmt(got), "expected": fmt(SOL), "mixed_unit_expressions": len(seen), "ok": ok})
-            if isinstance(got, Top) and got.lost:
-                raise AnalysisError(f"UNIT-CONSISTENT: the unit of `{src(node)[:60]}` in {cfg} could not be computed ({got.why}); cannot decide")
-            if not ok and not isinstance(got, Top):
-                ctx.finding("UNIT-CONSISTENT", f, node, f"`{cfg}` returns a value of unit {fmt(got)}; the solution of the (penalised) least-squares problem has unit {fmt(SOL)} (M = unit of UtM, U = unit of UtU)", construct=f"{cfg}: returned unit {fmt(got)} != {fmt(SOL)}")
-            elif isinstance(got, Top) and not seen:
-                ctx.finding("UNIT-CONSISTENT", f, node, f"`{cfg}` returns a value without a single unit ({got.why})", construct=f"{cfg}: returned unit inhomogeneous")
+    run_units(
+        ctx,
+        "UNIT-CONSISTENT",
+        [(q, e, SOL, l) for q, e, l in SPECS],
+        "M = unit of UtM, U = unit of UtU, a solution has unit M U^(-1)",
+        "the update is not invariant under rescaling the design, so its fixed point is not the least-squares solution for every input",
+    )
